@@ -171,6 +171,18 @@ func (l locality) matrices() map[string]mat.Matrix {
 		}
 		out["symband"] = s
 	}
+	// the same matrix as a padded view, as the transpose of a padded view of the transposed
+	// storage, and as an opaque Matrix: the At path must give the dense result
+	cols := make([][]float64, n)
+	for j := range cols {
+		cols[j] = make([]float64, n)
+		for i := range cols[j] {
+			cols[j][i] = l.w[i][j]
+		}
+	}
+	for _, kind := range []string{"view", "tview", "opaque"} {
+		out[kind] = buildRep(cols, kind).m
+	}
 	return out
 }
 
@@ -230,7 +242,7 @@ func spatialCase(t *vlib.T, idx []int, l locality) {
 		}
 	}
 	mats := l.matrices()
-	for _, kind := range []string{"dense", "band", "symband"} {
+	for _, kind := range []string{"dense", "band", "symband", "view", "tview", "opaque"} {
 		M, ok := mats[kind]
 		if !ok {
 			continue
@@ -247,7 +259,7 @@ func spatialCase(t *vlib.T, idx []int, l locality) {
 			}
 			if !near(gv, Vw, tolV) {
 				msg := fmt.Sprintf("GlobalMoransI(%s) Var(I) = %v, formula over all (i,j) gives %v (bound %.3g)", kind, gv, Vw, tolV)
-				if !l.sym && kind != "dense" {
+				if !l.sym && kind == "band" {
 					t.SubViolation("moran-var-"+kind, "moran-var-asymmetric-sparse", map[string]any{"data": data, "locality": l.w}, "%s", msg)
 				} else {
 					t.Failf("%s", msg)
@@ -334,9 +346,15 @@ func genSpatial(g *vlib.G) {
 // ---- Torgerson scaling -----------------------------------------------------------
 
 func mdsCase(t *vlib.T, pts [][2]int, passEig bool) {
+	mdsCaseRep(t, pts, passEig, "compact")
+}
+
+// mdsCaseRep is mdsCase with the dissimilarity matrix in the given storage representation.
+func mdsCaseRep(t *vlib.T, pts [][2]int, passEig bool, kind string) {
 	n := len(pts)
 	fn := float64(n)
-	dis := mat.NewSymDense(n, nil)
+	compact := mat.NewSymDense(n, nil)
+	dis := compact
 	d2 := make([][]float64, n)
 	maxD2 := 0.0
 	for i := range pts {
@@ -387,10 +405,43 @@ func mdsCase(t *vlib.T, pts [][2]int, passEig bool) {
 	}
 	var k int
 	var eig []float64
-	msg, pan := catch(func() { k, eig = mds.TorgersonScaling(&dst, eigdst, dis) })
+	srep := buildSymRep(compact, kind)
+	msg, pan := catch(func() { k, eig = mds.TorgersonScaling(&dst, eigdst, srep.s) })
 	if pan {
-		t.Failf("TorgersonScaling panics %q", msg)
+		t.Failf("TorgersonScaling(%s dissimilarities) panics %q", kind, msg)
 		return
+	}
+	if !srep.intact() {
+		t.Failf("TorgersonScaling modified the %s dissimilarity matrix or the storage around it", kind)
+	}
+	if kind != "compact" {
+		// the result must not depend on how the caller stores the dissimilarities
+		var d0 mat.Dense
+		e0 := make([]float64, n)
+		k0, _ := mds.TorgersonScaling(&d0, e0, compact)
+		if k0 != k {
+			t.Failf("TorgersonScaling k = %d for the %s representation, %d for the compact one", k, kind, k0)
+		} else if i, j, ok := sameMat(&dst, &d0); !ok {
+			t.Failf("TorgersonScaling coordinates of the %s representation differ from the compact ones at (%d,%d)", kind, i, j)
+		}
+		if passEig {
+			if i, ok := vlib.Same64(eig, e0); !ok {
+				t.Failf("TorgersonScaling eigenvalues of the %s representation differ from the compact ones at %d: %v vs %v", kind, i, eig, e0)
+			}
+		}
+	}
+	{
+		// the returned coordinates do not alias the caller's matrix
+		keep := mat.DenseCopyOf(&dst)
+		if dst.IsEmpty() {
+			keep = nil
+		}
+		srep.clobber()
+		if keep != nil {
+			if i, j, ok := sameMat(&dst, keep); !ok {
+				t.Failf("TorgersonScaling coordinates change when the caller overwrites the dissimilarities, at (%d,%d)", i, j)
+			}
+		}
 	}
 	if passEig {
 		if len(eig) != n || &eig[0] != &eigdst[0] {
@@ -453,9 +504,9 @@ func mdsCase(t *vlib.T, pts [][2]int, passEig bool) {
 	if n >= 3 {
 		t.Nontrivial()
 	}
-	t.Outcome(fmt.Sprintf("n=%d rank=%d k-rank=%d", n, rank, k-rank))
+	t.Outcome(fmt.Sprintf("n=%d rank=%d k-rank=%d rep=%s", n, rank, k-rank, kind))
 	if t.Failed() {
-		t.Detail(map[string]any{"points": pts})
+		t.Detail(map[string]any{"points": pts, "rep": kind})
 	}
 }
 
